@@ -5,6 +5,7 @@ import NeverModel.Lemmas.VmEffectSound
 import NeverModel.Lemmas.VmIpSound
 import NeverModel.Lemmas.VerCert
 import NeverModel.Lemmas.VerLocal
+import NeverModel.Lemmas.VerCalls
 /-!
 # C07 — emitted code is well-formed on every path, executed or not
 
@@ -449,5 +450,124 @@ example : (match verifyH callModule with
 example : (match run callModule (fun _ => {}) 3 { Vm.new 64 32 with running := 1 } with
     | .ok v => v.ip == 3 && v.sp == v.pp + 0 + 7 && v.fp == 4 && v.running == 1
     | .error _ => false) = true := by decide +kernel
+
+/-! ## Calls and returns: the global invariant over whole executions
+
+The frame records MARK pushes are followed as a ghost list beside the machine (`Rec`: position `F` of the return-address word =
+`fp` after the MARK, saved `pp`, saved `fp`, return address; `ghostNext`: MARK pushes, RET / RETHROW pop, CLEAR_STACK drops the
+records of calls in preparation).  `Sound md hm bot vm recs` is the global invariant: the stack array has its size; the machine is at
+the recorded height of its address (`sp = pp + nparams + h(ip)`) or at a handler entry; `fp` is the innermost live record and `pp` a
+live record (or the bottom value `bot`); every live record holds its three words and returning through it lands at the recorded
+height of its return address.  What the verifier does NOT establish enters as the per-step side conditions `StepOk`:
+"function objects hold entry addresses of the right arity" (`CallOk`: type soundness of the compiler), "frame words are not
+overwritten" (`FramesKept`: proved below for CALL / CLEAR_STACK / JUMP / JUMPZ, for MARK and RET relative to the record positions; for
+the data opcodes it would need a write-footprint logic over all handlers, and for records of calls in preparation the verifier does
+not track them), and the recorded constants of `MK_INIT_ARRAY`. -/
+
+/-- **The size of the stack array is an invariant of execution** (any module, any instruction: every stack write of M-VM is in
+bounds or a crash): a `step` from a machine whose stack array has the configured size ends in such a machine. -/
+theorem stack_size_invariant (md : Module) (orc : Oracle) (vm vm' : Vm) (hs : StackOk vm)
+    (hstep : (step md orc).run vm = .ok ((), vm')) : StackOk vm' ∧ vm'.stackSize = vm.stackSize :=
+  step_keeps_stackOk md orc vm vm' hs hstep
+
+/-- **CALL in a verified module** (marked or last call), from a state satisfying the global invariant, when the function value on
+top is nil or the entry of a function with as many parameters as arguments were pushed above the frame record (`CallOk`): the callee
+is entered at its recorded height 0 with `pp = fp` and `sp = pp + nparams(callee)` — or nil_pointer is raised and control is at the
+handler of the CALL's address —; the live records are unchanged and the invariant holds again. -/
+theorem verified_call_step (md : Module) (orc : Oracle) (sm : Summary) (hm : HMap) (hv : verifyH md = .ok (sm, hm)) (bot : Int)
+    (vm vm' : Vm) (recs : List Rec) (i : Instr) (hi : md.code[vm.ip]? = some i) (hop : i.op = .CALL)
+    (hs : Sound md hm bot vm recs) (hstep : (step md orc).run vm = .ok ((), vm')) (hok : StepOk md hm vm vm' recs) :
+    Sound md hm bot vm' recs := by
+  have h := sound_CALL (verifyH_ok md sm hm hv).2 orc vm vm' recs i hi hop hs hstep hok
+  rwa [ghostNext_other hi (by rw [hop]; decide) (by rw [hop]; decide) (by rw [hop]; decide) (by rw [hop]; decide)] at h
+
+/-- **A call returns to its MARK with exactly its result.**  RET in a verified module, from a state satisfying the global invariant
+with innermost live record `r` (pushed by the MARK executed at stack pointer `sp₀ = r.F − 5`, in a frame with `pp = r.pp`, `fp = r.fp`,
+return address `r.ra`): the machine is running at `r.ra` with `sp = r.F − 4 = sp₀ + 1` — the frame record and everything above it
+popped, the one result pushed —, `pp` and `fp` restored to their values at the MARK; the record is no longer live, and the invariant
+holds again (in particular `sp = pp + nparams + h(r.ra)`: the recorded height of the return address). -/
+theorem verified_ret_step (md : Module) (orc : Oracle) (sm : Summary) (hm : HMap) (hv : verifyH md = .ok (sm, hm)) (bot : Int)
+    (vm vm' : Vm) (recs : List Rec) (i : Instr) (hi : md.code[vm.ip]? = some i) (hop : i.op = .RET)
+    (hs : Sound md hm bot vm recs) (hstep : (step md orc).run vm = .ok ((), vm')) (hok : StepOk md hm vm vm' recs) :
+    ∃ r rs, recs = r :: rs ∧ vm'.ip = r.ra ∧ vm'.sp = r.F - 4 ∧ vm'.fp = r.fp ∧ vm'.pp = r.pp ∧ vm'.running = 1 ∧ Sound md hm bot vm' rs := by
+  obtain ⟨h, r, rs, e1, e2, e3, e4, e5, e6, e7⟩ := sound_RET (verifyH_ok md sm hm hv).2 orc vm vm' recs i hi hop hs hstep hok
+  rw [e2] at h
+  exact ⟨r, rs, e1, e3, e4, e5, e6, e7, h⟩
+
+/-- the record a MARK pushes: `F = sp + 5`, the `pp` and `fp` of the moment, the MARK's return address.  (With `verified_ret_step`: the
+RET that pops it continues at that return address with `sp = (sp before the MARK) + 1`, `pp`/`fp` as before the MARK.) -/
+theorem mark_pushes_record (md : Module) (vm : Vm) (recs : List Rec) (i : Instr) (hi : md.code[vm.ip]? = some i) (hop : i.op = .MARK) :
+    ghostNext md vm recs = { F := vm.sp + 5, pp := vm.pp, fp := vm.fp, ra := i.w0 } :: recs := by
+  unfold ghostNext; simp only [hi, hop]
+
+/-- **`verify_sound`, relative to its side conditions.**  In a verified module, every run of M-VM — calls, returns, raised and
+re-raised exceptions included — from a state satisfying the global invariant `Sound`, each step of which meets `StepOk`
+(`RunsG`), ends in a state that satisfies the invariant again — running at an address the verifier reached, with exactly
+the stack height it recorded there above the parameters of the running function, or at a handler entry; `fp`/`pp` on live,
+intact frame records —, or the machine stopped (`running = 3`: failed assert / unhandled exception) or halted (`running = 0`).
+PARTIAL: `StepOk` (see its definition) is assumed of every step; of it, the arity of function values is type soundness (C01/C06), and
+"frame words are not overwritten" is proved only for the steps listed at `frame_words_kept`. -/
+theorem verify_sound_partial (md : Module) (sm : Summary) (hm : HMap) (hv : verifyH md = .ok (sm, hm)) (bot : Int)
+    (n : Nat) (vm vm' : Vm) (recs recs' : List Rec) (hs : Sound md hm bot vm recs) (hr : RunsG md hm n vm recs vm' recs') :
+    Sound md hm bot vm' recs' ∨ vm'.running = 3 ∨ vm'.running = 0 :=
+  runsG_sound (verifyH_ok md sm hm hv).2 n vm vm' recs recs' hs hr
+
+/-- … in particular from the machine the first `nev_execute` starts on (empty stack, no live record) -/
+theorem verify_sound_from_start_partial (md : Module) (sm : Summary) (hm : HMap) (hv : verifyH md = .ok (sm, hm))
+    (mem stack gcMode : Nat) (n : Nat) (vm' : Vm) (recs' : List Rec)
+    (hr : RunsG md hm n (beginExecute md (Vm.new mem stack gcMode)) [] vm' recs') :
+    Sound md hm (-1) vm' recs' ∨ vm'.running = 3 ∨ vm'.running = 0 :=
+  verify_sound_partial md sm hm hv (-1) n _ vm' [] recs' (sound_initial (verifyH_ok md sm hm hv).2 mem stack gcMode) hr
+
+/-- **"Frame words are not overwritten": what is proved.**  The three words of every live record are left alone by a step on
+CALL, CLEAR_STACK, JUMP, JUMPZ (no stack write at all); by MARK for every record at or below the top of stack (it writes only above);
+by RET for every record strictly below the slot of the popped record's saved `pp` (the only slot it writes: the result). -/
+theorem frame_words_kept (md : Module) (orc : Oracle) (vm vm' : Vm) (recs : List Rec) (i : Instr) (hi : md.code[vm.ip]? = some i)
+    (hstep : (step md orc).run vm = .ok ((), vm')) :
+    ((i.op = .CALL ∨ i.op = .CLEAR_STACK ∨ i.op = .JUMP ∨ i.op = .JUMPZ) → FramesKept md vm vm' recs) ∧
+    (i.op = .MARK → vm.running = 1 → StackOk vm → (∀ r, r ∈ recs → r.F ≤ vm.sp) → FramesKept md vm vm' recs) ∧
+    (i.op = .RET → StackOk vm → (∀ r, r ∈ recs.tail → r.F < vm.fp - 4) → FramesKept md vm vm' recs) :=
+  ⟨fun h => framesKept_control orc vm vm' recs i hi h hstep,
+   fun h hr hs hb => framesKept_MARK orc vm vm' recs i hi h hr hs hb hstep,
+   fun h hs hb => framesKept_RET orc vm vm' recs i hi h hs hb hstep⟩
+
+/-- the global invariant holds of the start machine of `callModule`, and a whole run of it — MARK, the argument, the function value,
+CALL into `f`, `x + 1`, RET back behind the CALL, HALT — passes the addresses 0 … 5, 8 … 12 and ends halted with exactly the result
+on the stack (`sp = 0`), `fp = pp = −1` restored -/
+example : ∀ sm hm, verifyH callModule = .ok (sm, hm) → Sound callModule hm (-1) (beginExecute callModule (Vm.new 64 32)) [] :=
+  fun sm hm hv => sound_initial (verifyH_ok callModule sm hm hv).2 64 32 0
+
+example : (match run callModule (fun _ => {}) 11 (beginExecute callModule (Vm.new 64 32)) with
+    | .ok v => v.running == 0 && v.ip == 6 && v.sp == 0 && v.fp == -1 && v.pp == -1
+    | .error _ => false) = true := by decide +kernel
+
+/-- … and inside the callee, after the CALL (5 steps), the machine is at the function entry with `pp = fp = 4` (the record),
+`sp = pp + 1` (one parameter), i.e. at the recorded height 0 -/
+example : (match run callModule (fun _ => {}) 5 (beginExecute callModule (Vm.new 64 32)) with
+    | .ok v => v.running == 1 && v.ip == 8 && v.pp == 4 && v.fp == 4 && v.sp == v.pp + 1 + 0
+    | .error _ => false) = true := by decide +kernel
+
+/-- **the side conditions `StepOk` are satisfiable on a run with a call and a return**: the whole run of `callModule` from its start
+machine to HALT (11 steps: MARK … CALL, the callee, RET, HALT) is a `RunsG` run — every step meets the side conditions (checked by
+the decidable `stepOkB`, sound by `stepOkB_sound`) —, so `verify_sound_partial` applies to it -/
+example : ∀ sm hm, verifyH callModule = .ok (sm, hm) →
+    ∃ k vm' recs', RunsG callModule hm k (beginExecute callModule (Vm.new 64 32)) [] vm' recs' ∧ vm'.running = 0 ∧ recs' = [] := by
+  intro sm hm hv
+  have key : (match verifyH callModule with
+      | .ok (_, hm) =>
+        (match runGB callModule hm (fun _ => {}) 11 (beginExecute callModule (Vm.new 64 32)) [] with
+         | some (v, rs) => v.running == 0 && rs.isEmpty
+         | none => false)
+      | .error _ => false) = true := by decide +kernel
+  rw [hv] at key
+  simp only at key
+  cases hr : runGB callModule hm (fun _ => {}) 11 (beginExecute callModule (Vm.new 64 32)) [] with
+  | none => rw [hr] at key; cases key
+  | some p =>
+    obtain ⟨v, rs⟩ := p
+    rw [hr] at key
+    simp only [Bool.and_eq_true, beq_iff_eq, List.isEmpty_iff] at key
+    obtain ⟨k, hk⟩ := runGB_runsG callModule hm _ 11 _ _ _ _ hr
+    exact ⟨k, v, rs, hk, key.1, key.2⟩
 
 end Never.C07
